@@ -1,0 +1,91 @@
+// Copyright 2025 The JSON Schema Go Project Authors. All rights reserved.
+// Use of this source code is governed by an MIT-style
+// license that can be found in the LICENSE file.
+
+//go:build verif
+
+// Verification hooks. This file is only compiled with the build tag "verif";
+// it adds observation points and read-only accessors and changes no behaviour.
+
+package jsonschema
+
+import (
+	"hash/maphash"
+	"maps"
+	"reflect"
+	"sync/atomic"
+)
+
+const verifOn = true
+
+// A VerifFrameEvent describes the entry to or the exit from one call of the
+// internal validate function (one "frame" of a Validate call).
+type VerifFrameEvent struct {
+	Call     any           // identifies the Validate call the frame belongs to
+	Enter    bool          // true on entry (after the dynamic-scope push), false on exit
+	Depth    int           // length of the dynamic-scope stack, including this frame
+	Schema   *Schema       // the schema being applied
+	Instance reflect.Value // the instance it is applied to
+	InPlace  bool          // the caller collects this frame's annotations
+	OK       bool          // exit only: the frame's verdict
+	// exit only: the frame's annotations (copies)
+	AllItems, AllProperties bool
+	EndIndex                int
+	EvaluatedIndexes        map[int]bool
+	EvaluatedProperties     map[string]bool
+}
+
+var verifFrameHook atomic.Pointer[func(VerifFrameEvent)]
+
+// VerifSetFrameHook installs f as the frame hook (nil removes it). The hook
+// runs synchronously on the validating goroutine and may block.
+func VerifSetFrameHook(f func(VerifFrameEvent)) {
+	if f == nil {
+		verifFrameHook.Store(nil)
+		return
+	}
+	verifFrameHook.Store(&f)
+}
+
+func verifFrame(st *state, schema *Schema, instance reflect.Value, callerAnns, anns *annotations, errp *error) func() {
+	h := verifFrameHook.Load()
+	if h == nil {
+		return func() {}
+	}
+	depth := len(st.stack)
+	(*h)(VerifFrameEvent{Call: st, Enter: true, Depth: depth, Schema: schema, Instance: instance, InPlace: callerAnns != nil})
+	return func() {
+		(*h)(VerifFrameEvent{Call: st, Depth: depth, Schema: schema, Instance: instance, InPlace: callerAnns != nil,
+			OK:       *errp == nil,
+			AllItems: anns.allItems, AllProperties: anns.allProperties, EndIndex: anns.endIndex,
+			EvaluatedIndexes: maps.Clone(anns.evaluatedIndexes), EvaluatedProperties: maps.Clone(anns.evaluatedProperties)})
+	}
+}
+
+// VerifHash returns the hash of v under the given seed, as computed by the
+// internal hashValue function that uniqueItems uses.
+func VerifHash(seed maphash.Seed, v any) uint64 {
+	var h maphash.Hash
+	h.SetSeed(seed)
+	hashValue(&h, reflect.ValueOf(v))
+	return h.Sum64()
+}
+
+// VerifRefTarget returns the schemas that s's $ref and $dynamicRef were
+// statically resolved to, and the dynamic anchor name if the $dynamicRef
+// behaves dynamically.
+func (rs *Resolved) VerifRefTarget(s *Schema) (ref, dynRef *Schema, dynAnchor string) {
+	info := rs.resolvedInfos[s]
+	if info == nil {
+		return nil, nil, ""
+	}
+	return info.resolvedRef, info.resolvedDynamicRef, info.dynamicRefAnchor
+}
+
+// VerifDraft reports the draft the Resolved validates under: 7 or 2020.
+func (rs *Resolved) VerifDraft() int {
+	if rs.draft == draft7 {
+		return 7
+	}
+	return 2020
+}
